@@ -62,6 +62,9 @@ def run(tier, seed):
                                      "_parse_primary_expression", "_parse_iteration_statement"],
                  ["accept", "term"], "C04/gx", tier, drop=lambda o: "block-item: static_assert-declaration" in o.name))
     res.add(timing_obligation())
+    # the composition of the real lexer (look-ahead, brace callbacks) with the real parser: bounded sweep of scope histories
+    from props import scopesweep
+    res.add(scopesweep.obligations(tier))
     res.assumptions.append("scope push/pop follows the brace tokens as they are LEXED (buffered look-ahead of at most one token beyond "
                            "the braces); the abstract stream of GX has no lexer, so the scope a name lands in is covered by the SMT "
                            "contracts of the callbacks, not by GX")
